@@ -119,7 +119,8 @@ def spell(t, rng=None, redundant=0.0, spaces=0.0, lower=0.0):
         else:
             raise ValueError(t)
         return maybe(s)
-    return '=' + sp() + go(t, 0)
+    # blanks before the first and after the last token are as insignificant as those between tokens
+    return '=' + sp() + go(t, 0) + sp()
 
 
 # ------------------------------------------------------------------------------------ token-level recogniser
